@@ -182,8 +182,8 @@ func c17Families(run *ev.Run) []*c17File {
 		if i%9 == 0 {
 			nsvc = 4 // determinism across several services
 		}
-		if i == 3 {
-			nsvc = 0 // a file without services
+		if i == 3 || i%8 == 5 {
+			nsvc = 0 // a file without services (messages only); i%8 == 5 puts one second in its batch of four, ahead of files with services
 		}
 		used := map[string]bool{}
 		for si := 0; si < nsvc; si++ {
